@@ -24,6 +24,12 @@ type stateSpec struct {
 	// stale > 0: a transaction is pooled one block below the tip and the tip block changes what its
 	// validity depends on (see staleNames)
 	stale int
+	mtb   int // MaxTraceableBlocks of the chain (0: 1000)
+	gap   int // extra blocks between the block that carries the conflict records and the tip
+	slim  bool // run only the control, transaction-list and txverify candidates
+	// extraA > 0: the prefix carries no random transfers and account A sends extraA-1 further ones in the
+	// block of the conflict records (fixes the length and spare capacity of A's stored transfer log)
+	extraA int
 }
 
 var staleNames = []string{"", "feeperbyte-raised-a-little", "feeperbyte-raised-a-lot", "attribute-fee-raised", "sender-blocked",
@@ -38,6 +44,12 @@ func (s stateSpec) String() string {
 	if s.stale > 0 {
 		r += " stale=" + staleNames[s.stale]
 	}
+	if s.mtb > 0 {
+		r += fmt.Sprintf(" mtb=%d gap=%d", s.mtb, s.gap)
+	}
+	if s.extraA > 0 {
+		r += fmt.Sprintf(" extraA=%d", s.extraA)
+	}
 	return r
 }
 
@@ -46,6 +58,13 @@ func (s stateSpec) String() string {
 type txLabel struct {
 	valid bool   // passes every check of verifyAndPoolTx that precedes pool.Add, at height h
 	why   string // construction reason
+}
+
+// pendingRec: a produced block whose transactions are registered as on chain once the tip is reached
+// (blocks above the tip - the valid next block and the future ones - are not on the replicas' chains).
+type pendingRec struct {
+	idx uint32
+	txs []*transaction.Transaction
 }
 
 type hdrInfo struct {
@@ -76,6 +95,15 @@ type state struct {
 	staleOK       bool                       // VerifyTx(stale) on a clean replica at the tip height
 	staleWhy      string
 	fpb, conflFee int64 // FeePerByte / Conflicts attribute fee in force at the tip
+	chainTx       map[util.Uint256]uint32  // transactions on chain (by construction) and their block
+	stubs         map[util.Uint256]*stubRec // conflict records on chain (by construction)
+	blocked       []util.Uint160            // accounts blocked by Policy at the tip
+	recAt         uint32                    // index of the block that carries onChain and the Conflicts-carrying transactions
+	zConfl        *transaction.Transaction  // named by an on-chain Conflicts attribute of ANOTHER account's transaction (valid)
+	wConfl        *transaction.Transaction  // named by an on-chain Conflicts attribute of a two-signer transaction, sent by its second signer
+	nonceNext     func() uint32
+	pending       []pendingRec
+	vars          []txVar // transactions built to fail chosen conjuncts of the stand-alone verification
 
 	// special transactions, all built for height h
 	onChain    *transaction.Transaction // included in block h
@@ -100,13 +128,7 @@ type state struct {
 	refDB     map[string]string
 }
 
-func txKey(t *transaction.Transaction) string {
-	w := "-"
-	if len(t.Scripts) > 0 {
-		w = witID(&t.Scripts[0])
-	}
-	return short(t.Hash()) + "/" + w
-}
+func txKey(t *transaction.Transaction) string { return short(t.Hash()) + "/" + witAll(t) }
 
 func (st *state) label(t *transaction.Transaction, valid bool, why string) *transaction.Transaction {
 	st.labels[txKey(t)] = txLabel{valid, why}
@@ -147,6 +169,7 @@ func (st *state) produce(p *chainT, txs []*transaction.Transaction) *block.Block
 		panic(fmt.Sprintf("producer: block %d refused: %v", f.Index, err))
 	}
 	st.roots = append(st.roots, bc.GetStateModule().CurrentLocalStateRoot())
+	st.pending = append(st.pending, pendingRec{f.Index, txs})
 	// Hand out a copy: the chain keeps the pointer it was given as its top block.
 	return mkBlock(f, txs)
 }
@@ -156,10 +179,11 @@ func (st *state) useState() { curFeePerByte, curConflictsFee = st.fpb, st.conflF
 
 func buildState(spec stateSpec, r *prng.R) *state {
 	curFeePerByte, curConflictsFee = baseFeePerByte, 0
-	st := &state{spec: spec, fpb: baseFeePerByte, v: spec.k.vals(), labels: map[string]txLabel{}, bal: map[string]int64{}, names: map[util.Uint160]string{}}
+	st := &state{spec: spec, fpb: baseFeePerByte, v: spec.k.vals(), labels: map[string]txLabel{}, bal: map[string]int64{}, names: map[util.Uint160]string{},
+		chainTx: map[util.Uint256]uint32{}, stubs: map[util.Uint256]*stubRec{}}
 	pk := spec.k
 	pk.vt, pk.skip = true, false // the producer always verifies everything
-	p := newChain(pk)
+	p := newChainMTB(pk, spec.mtb)
 	defer p.close()
 	g, err := p.bc.GetHeader(p.bc.CurrentBlockHash())
 	if err != nil {
@@ -167,8 +191,9 @@ func buildState(spec stateSpec, r *prng.R) *state {
 	}
 	st.genesis = hdrInfoOf(g)
 	st.roots = append(st.roots, p.bc.GetStateModule().CurrentLocalStateRoot())
-	hPre := uint32(1 + spec.nprep) // height of the last ordinary prefix block
-	st.h = hPre
+	hPre := uint32(1 + spec.nprep) // height of the block that carries the conflict records
+	st.recAt = hPre
+	st.h = hPre + uint32(spec.gap)
 	if spec.stale > 0 {
 		st.h++ // plus the block that changes the pooled transaction's validity
 	}
@@ -176,11 +201,13 @@ func buildState(spec stateSpec, r *prng.R) *state {
 	vub := h + 50
 	nonce := uint32(1000 * (r.Intn(1000) + 1))
 	nn := func() uint32 { nonce++; return nonce }
+	st.nonceNext = nn
 	accts := []*acct{accA, accB, accC, accD}
-	for _, a := range append(accts, accP, accX, accS) {
+	for _, a := range append(accts, accP, accX, accS, accK) {
 		st.names[a.h] = a.name
 	}
-	st.names[st.v.addr] = "vals"
+	st.names[spec.k.committee().addr] = "committee"
+	st.names[st.v.addr] = "vals" // the single chain's committee is its validator
 
 	// block 1: funding
 	var fund []*transaction.Transaction
@@ -189,6 +216,7 @@ func buildState(spec stateSpec, r *prng.R) *state {
 	}
 	fund = append(fund, mkValTx(st.v, accP.h, 30000000, nn(), vub))
 	fund = append(fund, mkValTx(st.v, accS.h, 10*gas, nn(), vub))
+	fund = append(fund, mkValTx(st.v, accK.h, 10*gas, nn(), vub))
 	if cv := spec.k.committee(); cv.addr != st.v.addr {
 		fund = append(fund, mkValTx(st.v, cv.addr, 100*gas, nn(), vub)) // the committee pays for its policy changes
 	}
@@ -198,27 +226,49 @@ func buildState(spec stateSpec, r *prng.R) *state {
 	st.yConfl = mkTx(accA, accD.h, 7, txOpt{nonce: nn(), vub: vub, sysFee: sysFeeTransfer})
 	st.onChain = mkTx(accA, accC.h, 5, txOpt{nonce: nn(), vub: vub, sysFee: sysFeeTransfer})
 	namesY := mkTx(accA, accC.h, 6, txOpt{nonce: nn(), vub: vub, sysFee: sysFeeTransfer, conflicts: []util.Uint256{st.yConfl.Hash()}})
+	st.zConfl = mkTx(accB, accD.h, 8, txOpt{nonce: nn(), vub: vub, sysFee: sysFeeTransfer})
+	namesZ := mkTx(accA, accC.h, 9, txOpt{nonce: nn(), vub: vub, sysFee: sysFeeTransfer, conflicts: []util.Uint256{st.zConfl.Hash()}})
+	// named by an on-chain Conflicts attribute of a TWO-signer transaction whose second signer is its sender
+	st.wConfl = mkTx(accC, accD.h, 9, txOpt{nonce: nn(), vub: vub, sysFee: sysFeeTransfer})
+	namesW := st.mkX(xSpec{signers: []xSigner{{acc: accA, scope: transaction.CalledByEntry}, {acc: accC, scope: transaction.CalledByEntry}},
+		to: accD.h, amount: 10, nonce: nn(), vub: vub, sysFee: sysFeeTransfer,
+		attrs: []transaction.Attribute{{Type: transaction.ConflictsT, Value: &transaction.Conflicts{Hash: st.wConfl.Hash()}}}})
+	blockK := mkCommitteeTx(spec.k.committee(), nativehashes.PolicyContract, "blockAccount", nn(), vub, accK.h)
+	st.blocked = append(st.blocked, accK.h)
 
 	// blocks 2..h
 	for i := 2; i <= int(hPre); i++ {
 		var txs []*transaction.Transaction
 		n := r.Intn(3)
+		if spec.extraA > 0 {
+			n = 0
+		}
 		for j := 0; j < n; j++ {
 			a := accts[r.Intn(len(accts))]
 			txs = append(txs, mkTx(a, accts[r.Intn(len(accts))].h, int64(1+r.Intn(1000)), txOpt{nonce: nn(), vub: vub, sysFee: sysFeeTransfer}))
 		}
 		if i == int(hPre) {
-			txs = append(txs, st.onChain, namesY)
+			txs = append(txs, st.onChain, namesY, namesZ, namesW, blockK)
+			for j := 1; j < spec.extraA; j++ {
+				txs = append(txs, mkTx(accA, accC.h, int64(40+j), txOpt{nonce: nn(), vub: vub, sysFee: sysFeeTransfer}))
+			}
 		}
 		st.prep = append(st.prep, st.produce(p, txs))
+	}
+	for i := 0; i < spec.gap; i++ {
+		st.prep = append(st.prep, st.produce(p, nil))
 	}
 	if spec.stale > 0 {
 		st.buildStale(p, nn, vub)
 	}
-	for _, a := range append(accts, accP, accX, accS) {
+	for _, pr := range st.pending { // everything produced so far is on the replicas' chains
+		st.record(pr.idx, pr.txs)
+	}
+	for _, a := range append(accts, accP, accX, accS, accK) {
 		st.bal[a.name] = gasBalance(p, a.h).Int64()
 	}
-	st.bal["vals"] = 0 // never a sender in candidate blocks
+	st.bal["committee"] = gasBalance(p, spec.k.committee().addr).Int64()
+	st.bal["vals"] = gasBalance(p, st.v.addr).Int64()
 
 	// the valid next block
 	var txs []*transaction.Transaction
@@ -230,7 +280,10 @@ func buildState(spec stateSpec, r *prng.R) *state {
 	// special transactions for height h
 	o := func(vubv uint32) txOpt { return txOpt{nonce: nn(), vub: vubv, sysFee: sysFeeTransfer} }
 	st.label(st.onChain, false, "already-on-chain")
-	st.label(st.yConfl, false, "conflicts-with-on-chain")
+	paysEnough := st.fpb == baseFeePerByte                                                   // built below the tip, for the base FeePerByte
+	st.label(st.yConfl, paysEnough && st.h >= st.recAt+st.mtb(), "conflicts-with-on-chain") // valid again once the record is untraceable
+	st.label(st.zConfl, paysEnough, "conflict-record-of-another-signer")
+	st.label(st.wConfl, paysEnough && st.h >= st.recAt+st.mtb(), "conflict-record-of-second-signer")
 	oc := o(vub)
 	oc.conflicts = []util.Uint256{st.onChain.Hash()}
 	st.attrOnCh = st.label(mkTx(accB, accX.h, 3, oc), false, "conflicts-attr-names-on-chain-tx")
@@ -254,6 +307,7 @@ func buildState(spec stateSpec, r *prng.R) *state {
 	st.poor1 = st.label(mkTx(accP, accX.h, 1, o(vub)), true, "poor-1")
 	st.poor2 = st.label(mkTx(accP, accX.h, 2, o(vub)), true, "poor-2")
 	st.extra = st.label(mkTx(accD, accX.h, 11, o(vub)), true, "extra")
+	st.buildVariants(r)
 
 	// mempool content of replicas
 	if spec.poolMode >= 1 {
@@ -261,6 +315,12 @@ func buildState(spec stateSpec, r *prng.R) *state {
 			if i%2 == 0 {
 				st.pool = append(st.pool, t)
 			}
+		}
+	}
+	if spec.poolMode >= 1 {
+		// a pooled transaction with two witnesses: the block copy differs in the second one only
+		if t := st.varByName("two-signers"); t != nil {
+			st.pool = append(st.pool, t)
 		}
 	}
 	if spec.poolMode >= 2 {
@@ -331,6 +391,7 @@ func (st *state) buildStale(p *chainT, nn func() uint32, vub uint32) {
 		change = append(change, mkCommitteeTx(cv, policy, "setAttributeFee", nn(), vub, int64(transaction.ConflictsT), st.conflFee))
 	case 4:
 		change = append(change, mkCommitteeTx(cv, policy, "blockAccount", nn(), vub, accS.h))
+		st.blocked = append(st.blocked, accS.h)
 	case 6:
 		o.vub = p.bc.BlockHeight() + 1
 	}
@@ -373,7 +434,7 @@ func (st *state) aheadHeaders() []*block.Header {
 
 // replica builds a fresh node in this state.
 func (st *state) replica() *chainT {
-	c := newChain(st.spec.k)
+	c := newChainMTB(st.spec.k, st.spec.mtb)
 	for i, b := range st.prep {
 		if len(st.prePool) > 0 && i == len(st.prep)-1 {
 			for _, t := range st.prePool {
@@ -406,7 +467,7 @@ func (st *state) replica() *chainT {
 func (st *state) cleanReplica() *chainT {
 	k := st.spec.k
 	k.vt, k.skip = true, false
-	c := newChain(k)
+	c := newChainMTB(k, st.spec.mtb)
 	for _, b := range st.prep {
 		if err := c.bc.AddBlock(mkBlock(fieldsOf(&b.Header), b.Transactions)); err != nil {
 			panic(err)
